@@ -68,7 +68,7 @@ M15 ==
 \* C17: encryption at rest
 M17 == IsKv =>
   CASE E.op = "set" -> B.enc => (E.plain = 0 /\ E.samect = 0)
-    [] E.op = "encstress" -> E.samect = 0
+    [] E.op = "encstress" -> E.samect = 0 /\ E.ok = 1
     [] E.op = "get" -> GetSecretOK(B, E.k, E.ok = 1, E.rv)
     [] E.op = "open_enc" -> (E.expect = 0 => E.ok = 0) /\ (E.expect = 1 => E.ok = 1 /\ E.plain = 0)
     [] OTHER -> TRUE
